@@ -342,10 +342,93 @@ struct Cfg
 		if (i != expIdx || r.second != expIns || keyOf(r.first) != k || (hasSerial && serOf(r.first) != expSer)) bad("INSERT");
 	}
 
+	// ---- node script: the REAL Node object driven directly; after every op the raw state is dumped byte for byte:
+	//      count / memPoolIndex / capacity / leaf ; the whole index table ; every raw item slot ('_' = no live item) ; the child array
+	std::string nodeRun(std::istringstream& is)
+	{
+		if constexpr (isMap) return "?nonode";
+		else
+		{
+			typedef typename Set::NodeParams NParams;
+			std::string layoutTok; is >> layoutTok;
+			if ((layoutTok == "C") != SNode::isContinuous) return "?layout";
+			MM mm = MM::make(0);
+			NParams* params = new NParams(mm);
+			SNode* node = nullptr; long nextChild = 1000;
+			auto base = [&] () -> Key* {
+				if constexpr (SNode::isContinuous) return node->GetItemPtr(0);
+				else return node->GetItemPtr(0) - node->mCounter.indexes[0];
+			};
+			auto live = [&] (size_t slot) -> bool {
+				if constexpr (SNode::isContinuous) return slot < node->GetCount();
+				else { for (size_t i = 0; i < node->GetCount(); ++i) if (node->mCounter.indexes[i] == slot) return true; return false; }
+			};
+			auto destroyNode = [&] () {
+				if (node == nullptr) return;
+				for (size_t i = 0; i < node->GetCount(); ++i) node->GetItemPtr(i)->~Key();
+				node->Destroy(*params); node = nullptr;
+			};
+			auto dump = [&] () {
+				tok("%u/%u/%u/%d;", unsigned(node->GetCount()), unsigned(node->mMemPoolIndex), unsigned(node->GetCapacity()), int(node->IsLeaf()));
+				if constexpr (SNode::isContinuous) out += '-';
+				else for (size_t i = 0; i < maxCap; ++i) tok(i ? ",%u" : "%u", unsigned(node->mCounter.indexes[i]));
+				out += ';';
+				Key* b = base();
+				for (size_t sl = 0; sl < node->GetCapacity(); ++sl) { if (sl) out += ','; if (live(sl)) tok("%ld", KK::val(b[sl])); else out += '_'; }
+				out += ';';
+				if (node->IsLeaf()) out += '-';
+				else for (size_t i = 0; i <= node->GetCount(); ++i) tok(i ? ",%ld" : "%ld", long(reinterpret_cast<uintptr_t>(node->GetChild(i))));
+				if constexpr (!SNode::isContinuous) for (size_t i = 0; i < node->GetCount(); ++i) if (node->mCounter.indexes[i] >= node->GetCapacity()) bad("SLOT");
+			};
+			std::string op;
+			while (is >> op)
+			{
+				if (!out.empty()) out += ' ';
+				long a1 = 0, a2 = 0; std::sscanf(op.c_str() + 1, "%ld:%ld", &a1, &a2);
+				stat(std::string("nodeop.") + op[0] + (SNode::isContinuous ? ".continuous" : ".indexed"));
+				switch (op[0])
+				{
+				case 'L': case 'T': {
+					destroyNode();
+					size_t c0 = std::min<size_t>(size_t(a1), maxCap); bool leaf = op[0] == 'L';
+					node = SNode::Create(*params, leaf, c0);
+					for (size_t i = 0; i < c0; ++i) ::new(static_cast<void*>(node->GetItemPtr(i))) Key(KK::make(1000 + long(i), 0));
+					if (!leaf) for (size_t i = 0; i <= c0; ++i) node->SetChild(i, reinterpret_cast<SNode*>(uintptr_t(i + 1)));
+					nextChild = 1000;
+					dump(); break; }
+				case 'A': {
+					if (node == nullptr) { out += '?'; break; }
+					size_t index = size_t(a1), count = node->GetCount();
+					if (!(count < node->GetCapacity() && index <= count)) { out += 'S'; stat("nodeop.acceptStuck"); break; }   // the MOMO_ASSERTs of AcceptBackItem
+					::new(static_cast<void*>(node->GetItemPtr(count))) Key(KK::make(a2, 0));   // itemCreator(node->GetItemPtr(count))
+					node->AcceptBackItem(*params, index);
+					if (!node->IsLeaf()) node->SetChild(index + 1, reinterpret_cast<SNode*>(uintptr_t(nextChild)));
+					++nextChild;
+					dump(); break; }
+				case 'R': {
+					if (node == nullptr) { out += '?'; break; }
+					size_t index = size_t(a1);
+					if (!(index < node->GetCount())) { out += 'S'; stat("nodeop.removeStuck"); break; }
+					node->Remove(*params, index, [] (Key& item) { item.~Key(); });
+					dump(); break; }
+				default: out += "?op";
+				}
+			}
+			destroyNode();
+			delete params;
+			return out;
+		}
+	}
+
 	std::string run(std::istringstream& is)
 	{
 		std::string op;
 		stat(pfx + "cases");
+		{	// a node script?
+			std::streampos p0 = is.tellg(); std::string first;
+			if ((is >> first) && first == "N") { stat(pfx + "nodeScripts"); return nodeRun(is); }
+			is.clear(); is.seekg(p0);
+		}
 		while (is >> op)
 		{
 			if (!out.empty()) out += ' ';
